@@ -332,9 +332,11 @@ var c17Other = hx.Register(&hx.Check[c17OtherCase]{
 // ---- key tuples -------------------------------------------------------------
 
 type c17TupleCase struct {
-	Types []string   `json:"types"`
-	A     []string   `json:"a"`
-	B     []string   `json:"b"`
+	Types  []string `json:"types"`
+	A      []string `json:"a"`
+	B      []string `json:"b"`
+	Short  int      `json:"short,omitempty"`
+	ShortA bool     `json:"shortA,omitempty"`
 }
 
 func mkAny(typ, s string) val.Value {
@@ -378,6 +380,10 @@ var c17Tuple = hx.Register(&hx.Check[c17TupleCase]{
 			}
 			c.Types, c.A, c.B = append(c.Types, typ), append(c.A, a), append(c.B, b)
 		}
+		if n > 1 {
+			c.Short = rapid.IntRange(-3, n-1).Draw(t, "short") // > 0: one of the tuples has only that many components
+			c.ShortA = rapid.Bool().Draw(t, "shortA")
+		}
 		return c
 	},
 	Run: func(c c17TupleCase, o *hx.Obs) {
@@ -400,6 +406,34 @@ var c17Tuple = hx.Register(&hx.Check[c17TupleCase]{
 			if it := intTypeByName(c.Types[0]); it != nil && straddles(it, bi(c.A[0]), bi(c.B[0])) {
 				o.NonTrivial()
 			}
+		}
+		if c.Short > 0 && c.Short < len(ka) {
+			// a tuple against one with fewer components: the shorter one is smaller when it is a prefix of the longer
+			o.Class("tuple-lengths=differ")
+			if c.ShortA {
+				ka = ka[:c.Short]
+			} else {
+				kb = kb[:c.Short]
+			}
+			if firstDiff < 0 || firstDiff >= c.Short {
+				o.NonTrivial()
+				want = 1
+				if c.ShortA {
+					want = -1
+				}
+			}
+			var got, rev int
+			var eq bool
+			if o.Guard("CompareVals", func() { got, rev, eq = val.CompareVals(ka, kb), val.CompareVals(kb, ka), val.EqualVals(ka, kb) }) {
+				return
+			}
+			if sign(got) != want || sign(rev) != -want {
+				o.Failf("order|tuple-prefix|lexi", "CompareVals of %d against %d components: (%v,%v)=%d reverse=%d want sign %d (types %v)", len(ka), len(kb), c.A, c.B, got, rev, want, c.Types)
+			}
+			if eq {
+				o.Failf("order|tuple-prefix|equal", "EqualVals of %d against %d components is true (%v,%v)", len(ka), len(kb), c.A, c.B)
+			}
+			return
 		}
 		var got, rev int
 		var eq bool
